@@ -9,3 +9,4 @@ for c in "$@"; do
   (cd /verif && ./check "$c" --tier quick 2>&1 | grep -E "VIOLATION|detail|KNOWN|tier=|HARNESS|Error" | head -12)
 done
 git -C /repo checkout -- . ; git -C /repo status --short | head -3
+(cd /verif && /venv/bin/python harness/gen_tables.py /repo > /dev/null 2>&1)   # leave the generated tables as /repo says
